@@ -18,8 +18,10 @@ RULE = ("a scenario is one abstract input (phased multi-sample VCF over 1-2 chro
         "phase set exchanged in the VCF). 'gen' scenarios bundle TLC-enumerated call patterns x name-group shapes "
         "(Gen_C10: every pattern over 3 sites/2 sets for ploidy 2, 2 sites for ploidy 3, every single/pair shape with "
         "every observed allele vector); 'rand' scenarios are seeded larger worlds (indels, read groups, BX clouds, "
-        "--regions, stale tags, ploidy 2-4); 'hazard' scenarios are five small input classes inside the statement on "
-        "which the unchanged code is expected to fail. A scenario is non-trivial if the run succeeded and its output has "
+        "--regions, stale tags, ploidy 2-4); 'hazard' scenarios are five small input classes inside the statement that "
+        "exposed defects of the code as of round 1 (mates on opposite strands: repaired by a5fcdae; alignment overlapping two "
+        "regions; stale tags on an unplaced unmapped read; barcode cloud touching two phase sets with equal scores; one barcode "
+        "in two samples). A scenario is non-trivial if the run succeeded and its output has "
         "a tagged alignment and an untagged alignment whose read observed a phased heterozygous variant (a tie)")
 ASSUMPTIONS = [
     "the alleles a read shows are those the harness built into it (error-free copy of an allele vector, SNVs and unshiftable "
@@ -148,10 +150,8 @@ def _gen_scenarios(ctx, tag, K, P, pats, groups, npats, chunk):
                 x = rng.random()
                 rg = 1 if x < 0.75 else rng.randint(1, len(rgs))
                 alns = []
-                both = len(g) == 2 and all(a["c"]["lo"] <= a["c"]["hi"] for a in g) and g[1]["kind"] in ("prim", "low")
-                strand = rng.random() < 0.5
                 for n, a in enumerate(g):
-                    rev = strand if (both or n == 0) else rng.random() < 0.5
+                    rev = rng.random() < 0.5          # mates on the same or on opposite strands
                     third = []
                     if a["c"]["lo"] <= a["c"]["hi"] and rng.random() < 0.08:
                         j = rng.randint(a["c"]["lo"], a["c"]["hi"])
@@ -287,9 +287,8 @@ def _rand_scenario(rng, ploidy):
                         k = rng.randrange(len(al2))
                         al2[k] = 1 - al2[k]
                     lo2, hi2 = a, b
-            both = k2 in ("prim", "low") and lo <= hi and lo2 <= hi2
             rev1 = rng.random() < 0.5
-            rev2 = rev1 if both else rng.random() < 0.5
+            rev2 = rng.random() < 0.5
             alns.append({"chrom": ci, "kind": "prim", "lo": lo, "hi": hi, "al": al, "third": third, "rev": rev1, "stale": _stale(rng)})
             alns.append({"chrom": ci2, "kind": k2, "lo": lo2, "hi": hi2, "al": al2, "third": third2, "rev": rev2, "stale": _stale(rng)})
         bx = 0
